@@ -2,6 +2,7 @@ import FsnVerif.Proofs.KqLemmas
 import FsnVerif.Proofs.KqFullInv
 import FsnVerif.Proofs.KqFullFrame
 import FsnVerif.Proofs.KqFullRemove
+import FsnVerif.Proofs.KqFullQueueGone
 /-!
 # C17 — kqueue: watch descriptors are always closed again; only user paths are listed (model side)
 
@@ -180,6 +181,18 @@ theorem full_close_releases_all {s : KS} (h : Reachable s) (hc : s.closed = fals
     (run .close { s := s, tape := tape }).s.openFds = [] ∧ (run .close { s := s, tape := tape }).s.wd = [] ∧
       (run .close { s := s, tape := tape }).s.knotes = [] :=
   close_releases _ (reachable_inv h) hc
+
+/-- **`Close` releases every descriptor even when the queue is gone** (finding F18, repaired): `Close` marks
+the Watcher closed and then releases path after path; the reader exits as soon as a send finds the Watcher
+closed and closes the kqueue on its way out, so every `register(EV_DELETE)` of that loop may fail. Whatever
+the kernel's knotes have become at that moment (`kn`; the empty list is "queue closed"), the loop leaves no
+descriptor open and no table entry. Before the repair `rm` returned at the failed `register`: with
+`kn = []` nothing at all was released -/
+theorem full_close_releases_queue_gone {s : KS} (h : Reachable s) (hc : s.closed = false) (tape : List Ans)
+    (kn : List (Nat × BitVec 32)) :
+    let r := (closeLoop (s.path.map (·.1)) { s := { s with closed := true, knotes := kn }, tape := tape }).2
+    r.s.openFds = [] ∧ r.s.wd = [] :=
+  close_releases_queue_gone { s := s, tape := tape } (reachable_inv h) hc kn
 
 /-- **`Remove` of a watched path closes that path's descriptor and drops its entry** (and, for a
 directory, whatever else it removes, it never adds an entry): afterwards the descriptor is not open,
